@@ -1,97 +1,13 @@
-// Package light holds the native (coverage-guided) fuzz target for the payload parser. It does not
-// link the application: the codec is built from the repository's own test encoding config, so the
-// instrumented build takes seconds and the target reaches thousands of executions per second.
 package light
 
 import (
-	"bytes"
+	"encoding/base64"
 	"encoding/json"
-	"fmt"
 	"os"
 	"testing"
 
-	"github.com/cosmos/gogoproto/proto"
-
-	orbiter "github.com/noble-assets/orbiter/v2"
-	adapterctrl "github.com/noble-assets/orbiter/v2/controller/adapter"
-	"github.com/noble-assets/orbiter/v2/testutil"
 	"github.com/noble-assets/orbiter/v2/types/core"
-
-	"verif/harness/memo"
 )
-
-var (
-	parser1 *adapterctrl.IBCParser
-	parser2 *adapterctrl.IBCParser
-)
-
-func init() {
-	enc := testutil.MakeTestEncodingConfig("noble")
-	orbiter.RegisterInterfaces(enc.InterfaceRegistry)
-	var err error
-	if parser1, err = adapterctrl.NewIBCParser(enc.Codec); err != nil {
-		panic(err)
-	}
-	if parser2, err = adapterctrl.NewIBCParser(enc.Codec); err != nil {
-		panic(err)
-	}
-}
-
-func parse(p *adapterctrl.IBCParser, s string) (pl *core.Payload, err error, panicked any) {
-	defer func() {
-		if r := recover(); r != nil {
-			panicked = r
-		}
-	}()
-	pl, err = p.ParsePayload([]byte(s))
-	if err != nil {
-		pl = nil
-	}
-	return pl, err, nil
-}
-
-func same(a, b *core.Payload) bool {
-	if a == nil || b == nil {
-		return a == b
-	}
-	x, e1 := proto.Marshal(a)
-	y, e2 := proto.Marshal(b)
-	return e1 == nil && e2 == nil && bytes.Equal(x, y)
-}
-
-// checkMemo is the semantic oracle inside the fuzz target: no panic (C14), acceptance implies
-// well-formedness (C15), and parsing is a pure function of the memo (C15/C19).
-func checkMemo(s string) error {
-	p1, e1, pan := parse(parser1, s)
-	if pan != nil {
-		return fmt.Errorf("parser panicked: %v", pan)
-	}
-	for i := 0; i < 6; i++ {
-		p := parser1
-		if i%2 == 1 {
-			p = parser2
-		}
-		p2, e2, pan := parse(p, s)
-		if pan != nil {
-			return fmt.Errorf("parser panicked: %v", pan)
-		}
-		if (e1 == nil) != (e2 == nil) {
-			return fmt.Errorf("parsing is not a pure function of the memo: %v / %v", e1, e2)
-		}
-		if e1 != nil && e1.Error() != e2.Error() {
-			return fmt.Errorf("error text differs between parses of the same memo: %q / %q", e1, e2)
-		}
-		if e1 == nil && !same(p1, p2) {
-			return fmt.Errorf("parsed payload differs between parses of the same memo")
-		}
-	}
-	if e1 == nil {
-		if v, why := memo.WellFormedMemo(s); v == memo.Malformed {
-			return fmt.Errorf("accepted a memo that is not a well-formed payload (%s)", why)
-		}
-	}
-	return nil
-}
 
 func seeds() []string {
 	var out []string
@@ -114,7 +30,7 @@ func FuzzParser(f *testing.F) {
 		f.Add([]byte(s))
 	}
 	f.Fuzz(func(t *testing.T, data []byte) {
-		if err := checkMemo(string(data)); err != nil {
+		if err := CheckMemo(string(data)); err != nil {
 			if cf := os.Getenv("VERIF_CASEFILE"); cf != "" {
 				doc := map[string]any{"property": os.Getenv("VERIF_PROPERTY"), "test": "TestC15Acceptance", "case": map[string]any{"memo": string(data)}, "message": err.Error()}
 				bz, _ := json.MarshalIndent(doc, "", " ")
@@ -129,10 +45,109 @@ func FuzzParser(f *testing.F) {
 func TestSeedsHold(t *testing.T) {
 	n := 0
 	for _, s := range seeds() {
-		if err := checkMemo(s); err != nil {
+		if err := CheckMemo(s); err != nil {
 			t.Fatalf("seed %q: %v", s, err)
 		}
 		n++
 	}
 	t.Logf("%d seeds hold", n)
+}
+
+// ---------------------------------------------------------------------------------------------
+// Packet level: ICS-20 packet data, source port and source channel through IBCAdapter.ParsePacket.
+
+func aspectFromEnv() Aspect {
+	switch os.Getenv("VERIF_PROPERTY") {
+	case "C14":
+		return AspectRobust
+	case "C16":
+		return AspectCoin
+	}
+	return AspectAll
+}
+
+type packetSeed struct {
+	data          string
+	port, channel string
+}
+
+func packetSeeds() []packetSeed {
+	orb := core.ModuleAddress.String()
+	mk := func(denom, amount, receiver, memo string) string {
+		bz, _ := json.Marshal(map[string]string{"denom": denom, "amount": amount, "sender": "cosmos1sender", "receiver": receiver, "memo": memo})
+		return string(bz)
+	}
+	var out []packetSeed
+	memos := seeds()
+	if len(memos) == 0 {
+		memos = []string{`{"orbiter":{}}`}
+	}
+	for i, m := range memos {
+		ch := []string{"channel-7", "channel-8", "channel-0"}[i%3]
+		out = append(out, packetSeed{mk("transfer/"+ch+"/uusdc", "1000000", orb, m), "transfer", ch})
+	}
+	m := memos[0]
+	out = append(out,
+		packetSeed{mk("transfer/channel-7/transfer/channel-3/uatom", "5", orb, m), "transfer", "channel-7"},
+		packetSeed{mk("transfer/channel-7/gamm/pool/1", "0x10", orb, m), "transfer", "channel-7"},
+		packetSeed{mk("uusdc", "1", orb, m), "transfer", "channel-7"},
+		packetSeed{mk("transfer/channel-7/ibc/27394FB092D2ECCD56123C74F36E4C1F926001CEADA9CA97EA622B25F41E5EB2", "1", orb, m), "transfer", "channel-7"},
+		packetSeed{mk("transfer/channel-7/uusdc", "-1", orb, m), "transfer", "channel-7"},
+		packetSeed{mk("transfer/channel-7/uusdc", "115792089237316195423570985008687907853269984665640564039457584007913129639936", orb, m), "transfer", "channel-7"},
+		packetSeed{mk("transfer/channel-7/uusdc", "1", "NOBLE"+upperTail(orb), m), "transfer", "channel-7"},
+		packetSeed{mk("transfer/channel-7/uusdc", "1", "noble1qqqqqqqqqqqqqqqqqqqqqqqqqqqqqqqqkxz0kf", m), "transfer", "channel-7"},
+		packetSeed{mk("transfer/channel-7/uusdc", "1", orb, ""), "transfer", "channel-7"},
+		packetSeed{mk("a/b/uusdc", "1", orb, m), "a", "b"},
+		packetSeed{mk("a/b/c/uusdc", "1", orb, m), "a/b", "c"},
+		packetSeed{"null", "transfer", "channel-7"},
+		packetSeed{"[]", "transfer", "channel-7"},
+		packetSeed{`{"denom":null,"amount":null,"receiver":null,"memo":null}`, "transfer", "channel-7"},
+	)
+	return out
+}
+
+func upperTail(addr string) string {
+	// "noble1..." -> "1..." in upper case, so that "NOBLE"+tail is the all-upper-case spelling
+	out := []byte(addr[len("noble"):])
+	for i, c := range out {
+		if c >= 'a' && c <= 'z' {
+			out[i] = c - 32
+		}
+	}
+	return string(out)
+}
+
+func FuzzPacket(f *testing.F) {
+	aspect := aspectFromEnv()
+	for _, s := range packetSeeds() {
+		f.Add([]byte(s.data), s.port, s.channel)
+	}
+	f.Fuzz(func(t *testing.T, data []byte, port, channel string) {
+		if _, err := CheckPacket(data, port, channel, aspect); err != nil {
+			if cf := os.Getenv("VERIF_CASEFILE"); cf != "" {
+				doc := map[string]any{"property": os.Getenv("VERIF_PROPERTY"), "test": "FuzzPacket", "message": err.Error(),
+					"case": map[string]any{"data_b64": base64.StdEncoding.EncodeToString(data), "data_text": string(data), "port": port, "channel": channel, "aspect": int(aspect)}}
+				bz, _ := json.MarshalIndent(doc, "", " ")
+				_ = os.WriteFile(cf, bz, 0o644)
+			}
+			t.Fatalf("VIOLATION: %v\ndata: %q port=%q channel=%q", err, data, port, channel)
+		}
+	})
+}
+
+// TestPacketSeedsHold runs the packet oracle over the seed corpus without the fuzzer and checks
+// that the seeds reach both outcomes.
+func TestPacketSeedsHold(t *testing.T) {
+	classes := map[string]int{}
+	for _, s := range packetSeeds() {
+		c, err := CheckPacket([]byte(s.data), s.port, s.channel, AspectAll)
+		if err != nil {
+			t.Fatalf("seed %q: %v", s.data, err)
+		}
+		classes[c]++
+	}
+	t.Logf("classes: %v", classes)
+	if classes["accepted"] == 0 || classes["refused/orbiter"] == 0 {
+		t.Fatalf("seed corpus does not reach both outcomes: %v", classes)
+	}
 }
